@@ -163,10 +163,8 @@ def run(ctx: Ctx, env):
 
     # ---- (2) null tests -------------------------------------------------------------------------------------------
     for d in [x for (k, x) in H.kind_cases() if k == "Compare"]:
-        for p in H.eval_visit(DJ, "Compare", d) or []:
-            right = p.entry["args"][1].fields.get("right") if len(p.entry.get("args", [])) > 1 else None
-            if not (isinstance(right, NodeV) and right.kinds == {"Null"}):
-                continue
+        # evaluated for exactly the trees whose right operand is the null literal (a handler that never asks is still decided)
+        for p in H.eval_visit(DJ, "Compare", d, fields={"right": {"Null"}}) or []:
             key = f"Compare[{d}]|null"
             if d in ("Eq", "NotEq"):
                 t = T.norm(p.value) if p.outcome == "return" else None
